@@ -1,5 +1,6 @@
 import ast
 import itertools
+import re
 from pathlib import Path
 from typing import IO, Any
 
@@ -72,9 +73,10 @@ class XonshCallMakerVisitor(PythonCallMakerVisitor):
         args = []
         for fn in alt_funcs:
             head, tail = self.lookahead_call_helper(fn, nested=False)
-            if "self." in tail:
+            if re.search(r"self\.\w+\(", tail):
                 # an argument that is itself a call (a forced token, also behind a group) would run while the
-                # argument tuple is built, i.e. before the earlier alternatives
+                # argument tuple is built, i.e. before the earlier alternatives; a method passed on uncalled
+                # (the target of a lookahead) is fine
                 return None
             if tail:
                 args.append(f"({head}, {tail})")  # tuple
